@@ -327,6 +327,9 @@ func instrumentPkg(p *listPkg, exports map[string]string, gover, relroot, out st
 	}
 	nf, ne := 0, 0
 	for i, af := range files {
+		if untouched(names[i]) {
+			continue
+		}
 		rw := &rewriter{fset: fset, info: info, src: srcs[i], file: af, relroot: relroot,
 			imports: map[string]string{}, dummies: map[string]string{}, skip: map[ast.Node]bool{},
 			lines: strings.Split(string(srcs[i]), "\n"), labels: map[ast.Stmt]*ast.LabeledStmt{}}
@@ -349,6 +352,21 @@ func instrumentPkg(p *listPkg, exports map[string]string, gover, relroot, out st
 		ne += len(rw.edits)
 	}
 	return nf, ne
+}
+
+// untouchedFiles are left as they are: code that un-instrumented libraries call back while holding locks of
+// their own must not contain scheduling points (a task parked there would keep that real lock, and the next task
+// to want it would block outside the simulator's control).
+//   - components/guns/http/trace.go: httptrace hooks; x/net/http2 calls GetConn with its connection pool locked.
+var untouchedFiles = []string{"components/guns/http/trace.go"}
+
+func untouched(name string) bool {
+	for _, u := range untouchedFiles {
+		if strings.HasSuffix(filepath.ToSlash(name), u) {
+			return true
+		}
+	}
+	return false
 }
 
 func (rw *rewriter) off(p token.Pos) int { return rw.fset.Position(p).Offset }
